@@ -69,7 +69,8 @@ class StreamGen(Pool):
         return self.rnd.choice(self.bounds)
 
     def count(self):
-        return self.rnd.choice([b'0', b'1', b'1', b'2', b'2', b'3', b'10', b'100', b'-1', b'x'])
+        # legal counts far beyond any stream's length too: a count is a limit, never a size to reserve
+        return self.rnd.choice([b'0', b'1', b'1', b'2', b'2', b'3', b'10', b'100', b'-1', b'x', b'65536', b'2147483647', b'4294967296', b'9223372036854775807'])
 
     def next(self):
         r = self.rnd
